@@ -15,6 +15,14 @@ def F(x):
     return Fraction(x) if x is not None else None
 
 
+def task_obs(tid):
+    """observation name of a task id '<obs>_ingest_t<i>' / '<obs>_<clock>_<node>' (names may contain '_')"""
+    tid = str(tid)
+    if "_ingest_t" in tid:
+        return tid.rsplit("_ingest_t", 1)[0]
+    return tid.rsplit("_", 2)[0]
+
+
 def ceil_div(a, b):
     return -((-a) // b)
 
@@ -360,7 +368,7 @@ class Monitors(Listener):
             held = {}
             for t in cv["running"]:
                 if "_ingest_t" in t:
-                    nm = t.rsplit("_ingest_t", 1)[0]
+                    nm = task_obs(t)
                     held[nm] = held.get(nm, 0) + 1
             for o in tel.observations:
                 h = held.get(o.name, 0)
@@ -478,7 +486,7 @@ class Monitors(Listener):
                 comps = {str(nd["id"]): nd["comp"] for nd in wf["nodes"]}
                 bad_comp = [t.id for t in pl.graph.nodes if suffix(t) in comps and t.flops != comps[suffix(t)]]
                 if got_nodes != want_nodes or got_edges != want_edges or bad_comp or \
-                        any(not str(t.id).startswith(o.name + "_") for t in pl.graph.nodes):
+                        any(task_obs(t.id) != o.name for t in pl.graph.nodes):
                     self.viol("C14", "plan-not-the-observations-workflow",
                               "%s: plan nodes %s edges %s, its workflow has nodes %s edges %s; wrong demands %s" % (
                                   o.name, got_nodes, got_edges[:6], want_nodes, want_edges[:6], bad_comp[:3]))
@@ -602,7 +610,7 @@ class Monitors(Listener):
                 continue
             span = F(t.aft) - F(t.ast)
             if "_ingest_" in tid:
-                o = [x for x in tel.observations if tid.startswith(x.name + "_ingest_")][0]
+                o = [x for x in tel.observations if task_obs(tid) == x.name][0]
                 if span != F(o.duration):
                     self.viol("C06", "ingest-span-not-duration", "%s span %s duration %s" % (tid, span, o.duration))
                     self.viol("C08", "ingest-span-not-duration", "%s span %s duration %s" % (tid, span, o.duration))
@@ -684,11 +692,11 @@ class Monitors(Listener):
                 for i in range(d):
                     if self.dowork_count.get("%s_ingest_t%d" % (o.name, i), 0) != 1:
                         self.viol("C04", "ingest-task-not-run-once", "%s_ingest_t%d" % (o.name, i))
-                if sum(1 for t in self.dowork_count if t.startswith(o.name + "_ingest_")) != d:
+                if sum(1 for t in self.dowork_count if "_ingest_t" in t and task_obs(t) == o.name) != d:
                     self.viol("C08", "ingest-task-count", "%s" % o.name)
                 nn = len(o.__dict__.get("_verif_nodes", [])) or len(
                     [n for n in self.h.spec["observations"] if n["name"] == o.name][0]["workflow"]["nodes"])
-                ran = [t for t in self.dowork_count if t.startswith(o.name + "_") and "_ingest_" not in t]
+                ran = [t for t in self.dowork_count if "_ingest_t" not in t and task_obs(t) == o.name]
                 if len(ran) != nn:
                     self.viol("C04", "workflow-task-not-run-once", "%s ran %d of %d" % (o.name, len(ran), nn))
                 if o.total_data_size != o.ingest_data_rate * o.duration:
@@ -734,6 +742,7 @@ class Monitors(Listener):
                 row = out["tasks"].get(tid)
                 if row is None or row["ast"] != tr["ast"] or row["aft"] != tr["aft"]:
                     self.viol("C04", "task-table-row-wrong", "%s table %s truth %s" % (tid, row, tr))
+                    self.viol("C06", "task-table-row-wrong", "%s table %s truth %s" % (tid, row, tr))
                     self.viol("C11", "task-table-row-wrong", "%s table %s truth %s" % (tid, row, tr))
         # C12 row count
         out = rec.get("out")
